@@ -177,6 +177,8 @@ def gen_targets(seed: int, tier: dict, pools) -> list[dict]:
             f, text = genmodels.gen_model(r.sub("gen"), gen_slots[i], member=gen_member[i],
                                           offset=rng.sub("variant-offset", gen_slots[i]).below(64))
             m = {"pool": "text", "text": text, "family": f}
+            if r.sub("node-meta").chance(0.35):
+                m["node_meta"] = True
         elif i < len(gen_slots) + len(script_slots):
             f, fn, src = script_slots[i - len(gen_slots)]
             m = {"pool": "script", "src": src, "fn": fn, "family": "script:" + f}
@@ -244,8 +246,8 @@ def _call_styles(rng: Rng, ops: list[dict]) -> None:
         if op["kind"] == "translate":
             if r.chance(0.25):
                 op["mp_first"] = True
-            if op.get("repeat") and r.chance(0.5):
-                op["mp_kwargs"] = True
+            if r.chance(0.3):
+                op["mp_kwargs"] = "first" if (not op.get("repeat") or r.chance(0.5)) else "between"
 
 
 def gen_runs(seed: int, tier: dict, targets: list[dict], repo: str, failing: set | None = None,
